@@ -135,6 +135,7 @@ def run_case(ctx):
         if plan and not descs:
             shutil.rmtree(tree, ignore_errors=True)
             continue
+        core.age_tree(ctx, tree)
         opname = "+".join(op for op, _ in plan) or "pristine"
         ctx.stats["trees"] += 1
         from amr_kitchen.taste import Taster
